@@ -397,3 +397,12 @@ def run(ctx):
     _run_before_r03_11(ctx)
     from . import replay_rules
     ctx.guard(replay_rules.r03_11)
+
+
+_run_before_r03_12 = run
+
+
+def run(ctx):
+    _run_before_r03_12(ctx)
+    from . import replay_rules
+    ctx.guard(replay_rules.r03_12)
